@@ -135,7 +135,11 @@ def run(ctx):
         raw += ["(%s) eq x" % kw, "x eq (%s)" % kw, "x eq (%s) and y" % kw, "-%s add 1" % kw, "not (%s)" % kw,
                 "(%s) in (1, 2)" % kw, "f.g(%s, 1) eq (%s)" % (kw, kw), "(%s) add (%s) gt 1" % (kw, kw),
                 "%s/a eq 1" % kw, "a/%s eq 1" % kw, "xs/any(y: (%s) eq y)" % kw, "my.f(%s=1)" % kw,
-                "x in ((%s), 1)" % kw, "(%s)" % kw, "ns.%s eq 1" % kw]
+                "x in ((%s), 1)" % kw, "(%s)" % kw, "ns.%s eq 1" % kw,
+                # ... and as the LAST segment of a path that is an operand
+                "(a/%s) eq 1" % kw, "(a/b/%s) eq x" % kw, "x eq (a/%s) and y" % kw, "(a/%s) and b" % kw,
+                "-(a/%s) add 1 gt 0" % kw, "(a/%s) in (1, 2)" % kw, "xs/any(y: (y/%s) gt 2)" % kw,
+                "(a/%s) add (b/%s) eq 2" % (kw, kw), "not (a/%s)" % kw, "(A/%s) eq 1" % kw.upper()]
     for seg in ("x.1c", "x.any", "x.all", "ns.b", "x.2", "x.not", "x._"):
         raw += ["a/%s eq 1" % seg, "a/%s/c eq 1" % seg, "a/b/%s eq 1" % seg, "a/%s/any()" % seg,
                 "a/%s/any(y: y eq 1)" % seg, "xs/any(y: y/%s eq 1)" % seg]
@@ -154,7 +158,7 @@ def run(ctx):
             o1 = drive.parse_term(text)
             import re as _re
             if o1[0] == "ok" and any(n[0] == "attr" and not _re.fullmatch(r"[A-Za-z_]\w*", n[2]) or
-                                     n[0] == "attr" and n[2].lower() in ("any", "all", "not") for n in T.walk(o1[1])):
+                                     n[0] == "attr" and n[2].lower() in ("any", "all") for n in T.walk(o1[1])):
                 keys.append("path-segment-only-writable-with-its-namespace")
             ctx.fail({"source": text, "mode": "raw"}, prob, expected="parse(render(t)) == t",
                      observed=detail, keys=keys, cls="raw-spelling", sig=[prob, sorted(keys), text.split("/")[0][:6] if keys else text])
